@@ -3,6 +3,7 @@ from vf.tasks.t_fock import circuit_labels
 
 LEVEL = "other"
 EXPLANATION = ("Clause table. PROVED unbounded (pyvc): add_heralds_to_state places herald values on herald modes and the state's entries, in order, on the others, for list and State arguments, any length, any herald positions (loop invariant with the counting function cnt, lemma cnt-diff proved by z3 induction schema); State._validate raises ValueError iff an occupation is negative; State.__len__/__getitem__/n_photons/s. BOUNDED, exact arithmetic (xlift): Simulator.simulate on 10 circuits (plain, heralds with input != output modes and with photons, two heralds, lossy, lossy + herald, ancilla in the middle, herald declared after the Simulator was created) for every input of <=2 photons (3 thorough): each amplitude = permanent of the photon-indexed sub-matrix of the circuit's U_full / sqrt(prod factorials) with herald photons inserted and vacuum on loss modes (independent spec permanent), default outputs = full Fock basis of that photon number once, indexing consistent, unit vector for lossless circuits; wrong length, negative, non-integer, mismatched photon numbers are rejected. partition(U, in, out) = U[rows repeated by OUTPUT occupation, columns repeated by INPUT occupation] for all sizes and occupations (loop invariant over lsum; np.ix_ model), remove_heralds_from_state (C18). NOT under contract: Permanent.calculate (thewalrus replaced by the exact permanent under xlift), fock_basis/_sums (checked through the outputs clause only). ADDED LATER: Permanent.calculate under contract (amplitude formula with every occupation factorial, partition called modularly); BOUNDED native: occupations whose factorials exceed 64 bits (13, 20, 21 photons in a mode, |13,13> on slos), a reused Simulator after tiny / large parameter steps, in-place edits and late heralds, a circuit without user-visible modes. PROVED LATER (pyvc): Simulator._process_inputs refuses a state of the wrong length (ModeMismatchError), a negative occupation (ValueError) and a non-State (TypeError), and hands the accepted states on unchanged (1 and 2 states, single State).")
+EXPLANATION = EXPLANATION + " ADDED IN ROUNDS 5-8. BOUNDED: the 'tiny' circuit (matrix elements of modulus 1e-5) also for the simulator; states listed more than once in input / output lists; invalid outputs given as a bare State; states built from numpy arrays / tuples / numpy scalars / floats (invalid ones refused, never truncated and computed)."
 ASSUMPTIONS = ["A1: floats are exact reals", "circuit matrices restricted to exact (rational Cayley / sqrt-rational) unitaries inside the bound"]
 TRUSTED = ["xlift field + numpy proxy + exact permanent", "spec formulas vf/spec/fock.py", "z3 5.1"]
 MODULES = ["vf.contracts.c_heralding", "vf.contracts.c_state", "vf.contracts.c_backend", "vf.contracts.c_simulator", "vf.contracts.c_rewrite"]
